@@ -184,6 +184,36 @@ theorem initCalls_le_declared (e : Env) (io : InitOrc) (h : 1 ≤ e.unc0) :
   simp only [this, if_false]
   omega
 
+/-- `init_sobol` draws fewer than four times the requested number of points -/
+theorem sobolCount_le (n D : Nat) (hn : 1 ≤ n) : sobolCount n D ≤ 4 * n := by
+  have h2 : 2 ^ clog2 n ≤ 2 * n := by
+    unfold clog2
+    split
+    · simp; omega
+    · rename_i h1
+      have hm : n - 1 ≠ 0 := by omega
+      have := Nat.log2_self_le hm
+      rw [Nat.pow_succ]
+      omega
+  unfold sobolCount
+  split
+  · rw [Nat.pow_succ]; omega
+  · omega
+
+/-- a sufficient size of the budget for the property's proviso: four times the (adjusted) `fun_eval_start` plus the start point and
+    the noise test -/
+theorem fits_of_room (e : Env) (io : InitOrc) (h : 2 + 4 * nDesign e io ≤ e.full.o.budget) : Fits e io := by
+  unfold Fits
+  have h1 := initCalls_length e io
+  have h2 := designEvals_length_le e io
+  by_cases hn : nDesign e io = 0
+  · have : designEvals e io = [] := by unfold designEvals; simp [hn]
+    rw [h1, this]
+    split <;> simp <;> omega
+  · have h3 := sobolCount_le (nDesign e io) e.full.o.D (by omega)
+    rw [h1]
+    split <;> omega
+
 theorem design_point_ok (e : Env) (hb : boxOK e.full.pipe.lb e.full.pipe.ub = true) (io : InitOrc) (hi : InitOK e io)
     (d : Pt × Rat × Bool) (hd : d ∈ designEvals e io) :
     InBox e.full.pipe.lb e.full.pipe.ub d.1 ∧ (∀ c, e.full.pipe.cons = some c → c d.1 = false) := by
